@@ -8,6 +8,8 @@ from .. import paths
 from ..core import FUNC, call_attr, calls_in, const, dotted, is_const, kwarg, norm, text, walk_local
 
 EXPLANATION = [
+    'C12.space-after-match: in on_att_find_by_type_value_request the response room is decremented only after attributes.append(...) in the same block (consumed by reported entries, not by examined candidates).',
+    'C12.copy-update: in the GATT modules no container looked up in a table is replaced by a rebuilt copy bound to the local only (`subs = subs - {s}`): the table keeps the old object and the unsubscribe is lost.',
     'C12.subscribe-order: Client.subscribe registers the subscriber (setdefault / add on the subscriber tables) before the awaited CCCD write on every path.',
     'C12.accessor-argument: Attribute.read_value / write_value pass each dynamic-value accessor the kind of object its signature declares (AttributeValue: the Connection; AttributeValueV2: the bearer).',
     "C12.eatt-mtu: each LeCreditBasedChannel handler that learns the peer's MTU from a connection response recomputes att_mtu afterwards, and no GATT / device code assigns a bearer's att_mtu from outside: both ends of an enhanced bearer hold min(own, peer).",
@@ -753,7 +755,35 @@ def subscribe_order(ctx):
     R.check(bool(seen) and not late, rule, f'{CLI}.subscribe', f'{len(set(seen))} registration(s), all before the CCCD write', f'subscribe() registers the subscriber (`{norm(late[0])[:50] if late else ""}`) after awaiting the CCCD write: a notification / indication the server sends right after enabling arrives while nobody is registered and is lost', p.loc(late[0]) if late else p.loc(fn))
 
 
+def copy_update_rule(ctx):
+    from ..generic_rules import copy_update
+    copy_update(ctx, 'C12.copy-update', ['bumble.gatt_client', 'bumble.gatt_server', 'bumble.gatt'])
+
+
+def space_after_match(ctx):
+    """Find By Type Value: response room is consumed by the entries that are reported, i.e. the decrement of
+    pdu_space_available follows attributes.append(...) in the same block - consuming it per examined candidate ends the
+    search after (MTU-1)/4 non-matching services although matching ones follow."""
+    R, p = ctx.r, ctx.p
+    rule = 'C12.space-after-match'
+    fn = p.find(f'{SRV}.on_att_find_by_type_value_request')
+    if fn is None:
+        R.bad(rule, f'{SRV}.on_att_find_by_type_value_request', 'anchor missing')
+        return
+    decs = [s_ for s_ in walk_local(fn) if isinstance(s_, ast.AugAssign) and dotted(s_.target) == 'pdu_space_available' and isinstance(s_.op, ast.Sub)]
+    decs += [s_ for s_ in walk_local(fn) if isinstance(s_, ast.Assign) and dotted(s_.targets[0]) == 'pdu_space_available' and isinstance(s_.value, ast.BinOp) and isinstance(s_.value.op, ast.Sub) and norm(s_.value.left) == 'pdu_space_available']
+    R.check(len(decs) >= 1, rule, f'{SRV}.on_att_find_by_type_value_request | accounting', f'{len(decs)} decrement(s)', 'no accounting of the response room found', p.loc(fn))
+    for d in decs:
+        par = getattr(d, '_parent', None)
+        blk = next((b for b in (getattr(par, 'body', None), getattr(par, 'orelse', None)) if isinstance(b, list) and d in b), [])
+        i = blk.index(d) if d in blk else 0
+        ok = any(isinstance(s_, ast.Expr) and isinstance(s_.value, ast.Call) and call_attr(s_.value) == 'append' and dotted(s_.value.func.value) == 'attributes' for s_ in blk[:i]) and not any(isinstance(x, (ast.Continue, ast.Break)) for s_ in blk[:i] for x in ast.walk(s_) if not isinstance(s_, (ast.Try, ast.If)))
+        R.check(ok, rule, f'{SRV}.on_att_find_by_type_value_request | {norm(d)}', 'after attributes.append(...) in the same block', 'response room is consumed for a candidate that may not be reported: after (ATT_MTU-1)/4 attributes of the requested type that do not match, the search stops and a matching service further on is never found (discover_service returns nothing)', p.loc(d))
+
+
 RULES = [
+    ('C12.space-after-match', space_after_match),
+    ('C12.copy-update', copy_update_rule),
     ('C12.subscribe-order', subscribe_order),
     ('C12.accessor-argument', accessor_argument),
     ('C12.eatt-mtu', eatt_mtu),
